@@ -181,6 +181,12 @@ AddInvoice(s, h, a) ==
   IF e.amt > 0 THEN (IF ~e.ks /\ e.amt = a /\ ~e.old THEN OkFlag(s, TRUE) ELSE Err(s))
   ELSE OkFlag(Persist([s EXCEPT !.inv[h] = [amt |-> a, ks |-> FALSE, old |-> FALSE],
                                 !.pay[h] = IF @.has THEN @ ELSE Fresh(Cs(s))]), TRUE)
+\* an invoice the approver declines (Approve::handle_proposed_invoice): the shortcut for an already
+\* registered identical invoice still answers true; nothing is registered otherwise
+DeclineInvoice(s, h, a) ==
+  LET e == s.inv[h] IN
+  IF e.amt > 0 THEN (IF ~e.ks /\ e.amt = a /\ ~e.old THEN OkFlag(s, TRUE) ELSE Err(s))
+  ELSE OkFlag(s, FALSE)
 \* add_keysend: the "invoice hash" of a keysend is the payment hash itself, so any keysend for a
 \* hash that has one is the same one (the registered amount stays)
 AddKeysend(s, h, a) ==
@@ -233,6 +239,7 @@ Step(s, r, k) ==
     [] r.op = "ValidateHolderRetry" -> ValidateHolderRetry(s, r.ch, k)
     [] r.op = "Revoke"              -> Revoke(s, r.ch, k)
     [] r.op = "AddInvoice"          -> AddInvoice(s, r.h, r.a)
+    [] r.op = "DeclineInvoice"      -> DeclineInvoice(s, r.h, r.a)
     [] r.op = "AddKeysend"          -> AddKeysend(s, r.h, r.a)
     [] r.op = "Fulfill"             -> Fulfill(s, r.h)
     [] r.op = "Tick"                -> Tick(s)
@@ -325,8 +332,8 @@ Config(name) ==
          [chans |-> {"c1", "c2"}, hashes |-> {"h1"},
           reqs |-> ChanReqs("c1", {<<>>, <<O("h1", 1)>>, <<O("h1", 2)>>, <<O("h1", 1), O("h1", 1)>>}, FALSE)
               \cup ChanReqs("c2", {<<>>, <<O("h1", 1)>>, <<O("h1", 2)>>}, FALSE)
-              \cup {[op |-> "AddInvoice", h |-> "h1", a |-> 1], [op |-> "Fulfill", h |-> "h1"],
-                    [op |-> "Heartbeat"], [op |-> "Restart"]}]
+              \cup {[op |-> "AddInvoice", h |-> "h1", a |-> 1], [op |-> "DeclineInvoice", h |-> "h1", a |-> 1],
+                    [op |-> "Fulfill", h |-> "h1"], [op |-> "Heartbeat"], [op |-> "Restart"]}]
     [] name = "parts" ->      \* multi-part payments, two invoice amounts, keysend, retries, pruning
          [chans |-> {"c1", "c2"}, hashes |-> {"h1"},
           reqs |-> ChanReqs("c1", {<<>>, <<O("h1", 1)>>, <<O("h1", 1), O("h1", 1)>>}, TRUE)
